@@ -83,6 +83,7 @@ static void puthex(const char *s)
 static char hookbuf[1 << 16];
 static size_t hooklen;
 
+static int path_fold;   /* 1: hex of the lower-cased names (node names keep the spelling of whoever created them first) */
 static void node_path(struct conf_node_base *n, char *buf, size_t size)
 {
     /* path of hex names from the root */
@@ -93,11 +94,43 @@ static void node_path(struct conf_node_base *n, char *buf, size_t size)
         size_t k = 0;
         const char *s = n->name;
         if (!*s) { strcpy(hx, "="); }
-        else { for (; *s && k + 3 < sizeof(hx); s++) k += sprintf(hx + k, "%02x", (unsigned char)*s); }
+        else { for (; *s && k + 3 < sizeof(hx); s++) k += sprintf(hx + k, "%02x", (unsigned char)(path_fold && *s >= 'A' && *s <= 'Z' ? *s + 32 : *s)); }
         snprintf(tmp, sizeof(tmp), "%s%s%s", hx, buf[0] ? "/" : "", buf);
         snprintf(buf, size, "%s", tmp);
     }
     if (!buf[0]) snprintf(buf, size, ".");
+}
+
+/* registrations that a change hook performs itself (a module that learns from one setting that it needs another) */
+static struct pending_reg {
+    char trigger[512];      /* hex path of the node whose hook registers */
+    char parent[512], name[256], def[256];
+    int subtype, has_def, done, tag;
+} pending[8];
+static int npending;
+static struct conf_node_object *find_obj(const char *path, int create);
+static char *unhex(const char *h);
+static CONF_UPDATE_HOOK(the_hook);
+
+static void run_pending(const char *path)
+{
+    int i;
+    for (i = 0; i < npending; i++) {
+        struct pending_reg *pr = &pending[i];
+        if (pr->done || strcasecmp(pr->trigger, path))
+            continue;
+        pr->done = 1;
+        {
+            struct conf_node_object *p = find_obj(pr->parent, 1);
+            char *name = unhex(pr->name);
+            char *def = pr->has_def ? unhex(pr->def) : NULL;      /* kept alive: config.c stores the pointer */
+            struct conf_node_string *sn = conf_register_string(p, pr->subtype, name, def);
+            sn->base.hook = the_hook;
+            if (hooklen + 600 < sizeof(hookbuf))
+                hooklen += sprintf(hookbuf + hooklen, "R %d %s\n", pr->tag, path);
+            free(name);
+        }
+    }
 }
 
 static CONF_UPDATE_HOOK(the_hook)
@@ -106,6 +139,12 @@ static CONF_UPDATE_HOOK(the_hook)
     node_path(node_, path, sizeof(path));
     if (hooklen + strlen(path) + 8 < sizeof(hookbuf))
         hooklen += sprintf(hookbuf + hooklen, "H %d %s\n", (int)node_->type, path);
+    if (npending) {
+        path_fold = 1;
+        node_path(node_, path, sizeof(path));
+        path_fold = 0;
+        run_pending(path);
+    }
 }
 
 /* ------------------------------------------------------------------ lookup */
@@ -382,6 +421,18 @@ int main(void)
             struct conf_node_string *s = conf_register_string(p, atoi(argv[3]), name, def);
             s->base.hook = the_hook;
             free(name);
+            puts("ok");
+        } else if (!strcmp(argv[0], "reg_onhook") && argc >= 7 && npending < 8) {
+            /* reg_onhook <trigger hexpath> <parentpath> <name> <subtype> <default|-> <tag> : register a string setting from inside the trigger's hook */
+            struct pending_reg *pr = &pending[npending++];
+            memset(pr, 0, sizeof(*pr));
+            snprintf(pr->trigger, sizeof(pr->trigger), "%s", argv[1]);
+            snprintf(pr->parent, sizeof(pr->parent), "%s", argv[2]);
+            snprintf(pr->name, sizeof(pr->name), "%s", argv[3]);
+            pr->subtype = atoi(argv[4]);
+            pr->has_def = strcmp(argv[5], "-") != 0;
+            snprintf(pr->def, sizeof(pr->def), "%s", argv[5]);
+            pr->tag = atoi(argv[6]);
             puts("ok");
         } else if (!strcmp(argv[0], "reg_list") && argc >= 4) {
             struct conf_node_object *p = find_obj(argv[1], 1);
